@@ -1,7 +1,7 @@
 CONSTANTS
   Acts = {"allow", "deny", "pass"}
-  MatchIds = {1,2}
+  MatchIds = {1,6}
   MaxTiers = 2
   MaxPol = 2
   MaxRules = 2
-  MaxTotal = 2
+  MaxTotal = 3
